@@ -3,7 +3,7 @@ run-time monitors live in bounded/native_vocab.py)."""
 import z3
 
 from contracts import specfunc, axioms
-from pyvc.engine import SV, mk, Val, VNONE, IntS, BoolS, StrS, OutOfReach, code_of
+from pyvc.engine import SV, mk, Val, VNONE, IntS, BoolS, StrS, OutOfReach, code_of, NONE_SV
 from pyvc.tys import *   # noqa
 
 
@@ -910,3 +910,96 @@ def ec_of(ex, st, el):
     if getattr(ex, 'spec_facts', None) is not None:
         ex.spec_facts.extend(ex.type_facts(st, app(a), DictT(STR)))
     return SV(app(a), DictT(STR))
+
+
+@specfunc('method:RoutedHandler.reply')
+def routed_handler_reply(ex, st, obj, args, kwargs, fr):
+    """h.reply(): user code - any string (the handler's reply_text) or any exception; the ghost `replier` remembers which
+    handler produced the reply that is being returned"""
+    st1 = st.copy()
+    st1.ghost = dict(st1.ghost)
+    st1.ghost['replier'] = obj
+    yield ex.read_field(st1, obj, 'reply_text')
+    yield ex.raise_(st, Exception, 'handler code')
+
+
+@specfunc('replier')
+def replier(ex, st):
+    r = st.ghost.get('replier')
+    if r is None:
+        # the contract applied at a call site: "some handler replied" - one Skolem handler per application
+        pre = (getattr(ex, 'spec_ctx', None) or {}).get('pre')
+        cache = ex.__dict__.setdefault('_replier_cache', {})
+        key = id(pre)
+        if key not in cache:
+            cache[key] = (pre, z3.FreshConst(IntS, 'replier'))       # (pre kept alive so that the id stays unique)
+        t = cache[key][1]
+        if getattr(ex, 'spec_facts', None) is not None:
+            ex.spec_facts.extend(ex.type_facts(st, t, ObjT('RoutedHandler')))
+        return SV(t, ObjT('RoutedHandler'))
+    return r
+
+
+@specfunc('tuple_item_any')
+def tuple_item_any(ex, st, v, i):
+    """item i of a tuple held in a dynamically typed place"""
+    a = Val.addr(ex.term(v, 'V'))
+    return SV(ex.H(st, 'La.V')[a][ex.term(i, 'I')], ANY)
+
+
+@specfunc('all_handler_entries_are_tuples')
+def all_handler_entries_are_tuples(ex, st, d):
+    """the handlers table maps every key to a tuple (handler class, *args) - how MLLPServer documents it"""
+    a = ex.term(d, 'R')
+    k = z3.FreshConst(StrS, 'hk')
+    v = ex.H(st, 'Dv.V')[a][k]
+    va = Val.addr(v)
+    return SV(z3.ForAll([k], z3.Implies(ex.H(st, 'Dd')[a][k],
+                                        z3.And(Val.is_VRef(v), va > 0, va < ex.H(st, 'next'), ex.H(st, 'cls')[va] == ex.world.cid('tuple'),
+                                               ex.H(st, 'Ll')[va] >= 1))), BOOL)
+
+
+@specfunc('opt_str')
+def opt_str(ex, st, cond, s):
+    """`s if cond else None` as an optional string"""
+    c = ex.truth(st, cond)
+    c = c if not isinstance(c, bool) else z3.BoolVal(c)
+    return SV(z3.If(c, Val.VStr(ex.term(s, 'S')), VNONE), Opt(STR))
+
+
+def _timeout_cls():
+    import socket
+    return socket.timeout
+
+
+@specfunc('method:Socket.recv')
+def socket_recv(ex, st, obj, args, kwargs, fr):
+    """request.recv(n): at most n bytes (possibly none), or socket.timeout"""
+    n = ex.term(args[0], 'I')
+    b = z3.FreshConst(StrS, 'recv')
+    st1 = st.assume(z3.And(z3.Length(b) >= 0, z3.Length(b) <= n))
+    yield st1, SV(b, BYTES)
+    yield ex.raise_(st, _timeout_cls(), 'timed out')
+
+
+@specfunc('method:RFile.read')
+def rfile_read(ex, st, obj, args, kwargs, fr):
+    n = ex.term(args[0], 'I')
+    b = z3.FreshConst(StrS, 'read')
+    st1 = st.assume(z3.And(z3.Length(b) >= 0, z3.Length(b) <= n))
+    yield st1, SV(b, BYTES)
+    yield ex.raise_(st, _timeout_cls(), 'timed out')
+
+
+@specfunc('method:Socket.close')
+def socket_close(ex, st, obj, args, kwargs, fr):
+    st1, c = ex.read_field(st, obj, 'nclosed')
+    yield ex.write_field(st1, obj, 'nclosed', SV(c.term + 1, INT)), NONE_SV
+
+
+@specfunc('method:WFile.write')
+def wfile_write(ex, st, obj, args, kwargs, fr):
+    st1, c = ex.read_field(st, obj, 'nwrites')
+    st2 = ex.write_field(st1, obj, 'nwrites', SV(c.term + 1, INT))
+    st2 = ex.write_field(st2, obj, 'last', args[0])
+    yield st2, NONE_SV
